@@ -49,8 +49,8 @@ PROPS = {
     "C03": {
         "level": "fault_enumeration", "engine": "CRASH",
         "rule": CRASH_RULE,
-        "faults": ["process kill at every syscall prefix", "restart", "repeated crash (crash during recovery of an earlier crash)"],
-        "assumptions": [A_KILL],
+        "faults": ["process kill at every syscall prefix", "power loss at every syscall prefix (35% of the histories): dropped and torn un-synced writes", "restart", "repeated crash (crash during recovery of an earlier crash)"],
+        "assumptions": [A_KILL, A_POWER],
         "explanation": "oracle: startup returns without panic/fatal; every bucket whose creation completed before the crash answers an all-time query",
         "budget": {"quick": 40, "thorough": 600},
     },
@@ -158,7 +158,7 @@ PROPS.update({
                  "record boundaries +-2 and 200 sampled offsets beyond), a bit flip at every byte of every record header / length / tgid / checksum plus sampled payload bytes, 1-64 garbage bytes "
                  "inserted at and inside every record, each TG duplicated, adjacent TGs swapped; the real startup replay runs on each damaged image; "
                  "distinct_nontrivial = distinct (operator, offset, length, detail, #TGs)"),
-        "faults": ["WAL truncation at every offset", "bit flips", "inserted garbage", "duplicated record", "swapped records", "restart with replay"],
+        "faults": ["WAL truncation at every offset", "bit flips", "inserted garbage", "boundary values in TGDATA length fields and bare TGDATA headers at record boundaries", "logs ending with a checkpoint (25% of the runs; cuts before its COMMITCOMPLETE record)", "duplicated record", "swapped records", "restart with replay"],
         "assumptions": [A_KILL, "the WAL is walked with a 40-line reader of the documented record format (docs/design/durable_writes_design.txt) only to locate record boundaries; without a background writer the k-th TGDATA record belongs to the k-th acknowledged write request"],
         "explanation": "oracle: startup returns (no panic, no hang within the step cap); every TG whose data and commit record lie wholly before the first damaged byte is visible after replay; no record id of the TG containing the damage is visible; later TGs are unconstrained",
         "budget": {"quick": 45, "thorough": 900},
@@ -192,7 +192,7 @@ PROPS.update({
                  "writers colliding on three hot intervals per bucket; the seeded scheduler preempts at every channel, lock and file operation with probability 2/10/30/60%; "
                  "which ready select case the WAL writer takes is a tape choice; channel depth 64/1024/4096; 20% of runs start the clients before the WAL writer task has run (cold start); "
                  "distinct_nontrivial = distinct schedule signatures (hash of the task-switch sequence, #preemptions, #operations)"),
-        "faults": ["seeded preemption at every yield point", "virtual-time flush/check/checkpoint tickers", "power loss at the instant of each acknowledgement (nothing un-synced survives)"],
+        "faults": ["seeded preemption at every yield point", "virtual-time flush/check/checkpoint tickers", "slow disk: fsync / sync(2) take 5 ms-20 s of virtual time (per-run probability 0 / 4% / 15%)", "power loss at the instant of each acknowledgement (nothing un-synced survives)"],
         "assumptions": ["tasks interleave at yield points only (file, lock, channel operations); invoke/return are stamped with a global event counter",
                         A_POWER],
         "explanation": ("oracles: (1) per (bucket, interval) register and per variable bucket multiset: a query that starts after a write returned shows that write or one not entirely before it, never a value "
@@ -273,7 +273,7 @@ PROPS.update({
         "rule": ("master (real WAL flush path, Sender, GRPCReplicationServer) with 2-4 replicas running the real Receiver/Retryer over the simulated stream, retry interval 5-200 ms; 1-2 writer tasks, 60% of runs "
                  "in burst mode (requests back to back, preemption 10-60%, stream/sender channel depth 500/8/2); links are cut at 2-12 seeded moments (every 1-25 ms in burst mode) so that disconnects land while "
                  "transactions are being fanned out; each replica reconnects on a new address; distinct_nontrivial = distinct (schedule hash, #replicas, #connections)"),
-        "faults": ["link break at seeded moments", "reconnect after back-off", "seeded preemption at every channel/lock/file operation", "small channel depths"],
+        "faults": ["link break at seeded moments", "reconnect after back-off", "slow replicas (stream.Send takes 100 ms-5 s of virtual time on a first connection; cut before liveness is judged)", "seeded preemption at every channel/lock/file operation", "small channel depths"],
         "assumptions": ["tasks interleave at yield points (every channel, lock, file, timer operation and go statement); unsynchronised memory accesses in between are decided by a second phase that runs the same engine in the race-detector build (see C18) and counts a data race when at least one of the two accesses is inside the replication package (races elsewhere belong to C18); master and replicas share one process in the simulation but the replication package has no mutable package state, so such a race is between goroutines of one real process",
                         "stalled-but-connected replicas are not injected (outside the property's quantifier)"],
         "explanation": ("oracle: no task panics; every writer returns within 60 virtual seconds of the last disconnect; for each connection the received transactions are a gap-free, ordered run of the master's commit sequence, "
